@@ -217,3 +217,35 @@ Proof.
     exfalso. apply Hn. rewrite filter_In. split; [apply in_seq; lia|].
     apply andb_true_iff. split; apply negb_true_iff; apply Nat.eqb_neq; assumption.
 Qed.
+
+(* ---- nsort: the sorted form depends only on the multiset of axes ---- *)
+Lemma ninsert_comm x y l : ninsert x (ninsert y l) = ninsert y (ninsert x l).
+Proof.
+  induction l as [|z l IH]; cbn [ninsert].
+  - destruct (Nat.leb_spec x y), (Nat.leb_spec y x); try reflexivity; try lia. assert (x = y) by lia. now subst.
+  - destruct (Nat.leb_spec y z), (Nat.leb_spec x z); cbn [ninsert].
+    + destruct (Nat.leb_spec x y), (Nat.leb_spec y x); try lia.
+      * assert (x = y) by lia. now subst.
+      * destruct (Nat.leb_spec y z); [reflexivity|lia].
+      * destruct (Nat.leb_spec x z); [reflexivity|lia].
+    + destruct (Nat.leb_spec x y); [lia|]. destruct (Nat.leb_spec y z); [|lia]. destruct (Nat.leb_spec x z); [lia|]. reflexivity.
+    + destruct (Nat.leb_spec y x); [lia|]. destruct (Nat.leb_spec x z); [|lia]. destruct (Nat.leb_spec y z); [lia|]. reflexivity.
+    + destruct (Nat.leb_spec x z); [lia|]. destruct (Nat.leb_spec y z); [lia|]. now rewrite IH.
+Qed.
+
+Theorem nsort_perm_eq l l' : Permutation l l' -> nsort l = nsort l'.
+Proof.
+  induction 1 as [|x l l' _ IH|x y l|l l' l'' _ IH1 _ IH2]; cbn [nsort fold_right].
+  - reflexivity.
+  - change (fold_right ninsert [] l) with (nsort l). change (fold_right ninsert [] l') with (nsort l'). now rewrite IH.
+  - apply ninsert_comm.
+  - now rewrite IH1.
+Qed.
+
+Lemma ninsert_perm x l : Permutation (ninsert x l) (x :: l).
+Proof.
+  induction l as [|y l IH]; cbn [ninsert]; [reflexivity|]. destruct (Nat.leb x y); [reflexivity|].
+  rewrite IH. apply perm_swap.
+Qed.
+Lemma nsort_perm l : Permutation (nsort l) l.
+Proof. induction l as [|x l IH]; cbn [nsort fold_right]; [reflexivity|]. rewrite ninsert_perm. now constructor. Qed.
